@@ -76,26 +76,17 @@ func runC11(c *Ctx) {
 		c.S.Unk("R0", "anchor:gcsca.ManifestObjectName", "", "exported constant not found")
 		return
 	}
-	isStorageWrite := func(call ssa.CallInstruction) bool {
-		if call.Common().StaticCallee() == wf {
-			return true
-		}
-		return invokeIs(call, storPkg, "Client", "Writer")
-	}
+	isStorageWrite := c.gcscaIsWrite
 	isManifestWrite := func(call ssa.CallInstruction) bool {
-		if call.Common().StaticCallee() != wf || len(call.Common().Args) < 4 {
+		name, ok := c.gcscaWriteName(call)
+		if !ok {
 			return false
 		}
-		k, ok := call.Common().Args[3].(*ssa.Const)
-		return ok && k.Value != nil && k.Value.Kind() == constant.String && constant.StringVal(k.Value) == manifestName
+		k, isK := name.(*ssa.Const)
+		return isK && k.Value != nil && k.Value.Kind() == constant.String && constant.StringVal(k.Value) == manifestName
 	}
 	// gate functions: gcsca functions invoking Storage.Exists and containing a storage write
-	gates := map[*ssa.Function]bool{}
-	for _, f := range c.funcsCalling(func(call ssa.CallInstruction) bool { return invokeIs(call, storPkg, "Client", "Exists") }) {
-		if load.RelPkg(f) == "sign/gcsca" && len(callsIn(f, isStorageWrite)) > 0 {
-			gates[f] = true
-		}
-	}
+	gates := c.gcscaGates()
 	c.S.Floor("R3", "no-clobber gate functions in gcsca", 1, len(gates))
 
 	const (
@@ -734,42 +725,56 @@ func isErrorType(t types.Type) bool {
 // return — an interrupted context, a flag — lets Finalize go on to write a manifest that names a key whose certificate
 // was never stored.
 func c11UploadThroughGate(c *Ctx) {
-	storPkg := repoPath("storage/storagei")
-	wf := c.P.Func("storage/ops", "WriteFile")
-	gates := map[*ssa.Function]bool{}
-	for _, g := range c.funcsCalling(func(call ssa.CallInstruction) bool { return invokeIs(call, storPkg, "Client", "Exists") }) {
-		if load.RelPkg(g) == "sign/gcsca" && wf != nil && len(callsIn(g, func(call ssa.CallInstruction) bool { return call.Common().StaticCallee() == wf })) > 0 {
-			gates[g] = true
-		}
-	}
+	gates := c.gcscaGates()
 	n := 0
-	for _, f := range c.P.RepoFunctions() {
-		if load.RelPkg(f) != "sign/gcsca" || c.isTestFunc(f) || f.Blocks == nil || gates[f] {
-			continue
-		}
+	// through: functions every successful return of which lies behind the gate (the gate itself, then — bottom up —
+	// the unexported functions found to satisfy the rule: an upload split into cases calls the gate through them)
+	through := map[*ssa.Function]bool{}
+	for g := range gates {
+		through[g] = true
+	}
+	type verdict struct {
+		ok bool
+		at token.Pos
+	}
+	judge := func(f *ssa.Function) (verdict, bool) {
 		ei := errIndex(f.Signature)
-		if ei < 1 {
-			continue
+		if ei < 0 {
+			return verdict{}, false
 		}
-		gcalls := callsIn(f, func(call ssa.CallInstruction) bool { return gates[call.Common().StaticCallee()] })
+		gcalls := callsIn(f, func(call ssa.CallInstruction) bool { return through[call.Common().StaticCallee()] })
 		if len(gcalls) == 0 {
-			continue
+			return verdict{}, false
 		}
-		n++
-		ok, at := true, f.Pos()
+		v := verdict{ok: true, at: f.Pos()}
 		for _, b := range f.Blocks {
 			ret, isRet := b.Instrs[len(b.Instrs)-1].(*ssa.Return)
-			if !isRet || !isNilK(ret.Results[ei]) {
+			if !isRet {
 				continue
 			}
-			through := false
+			ev := ret.Results[ei]
+			if !isNilK(ev) {
+				// handing on the verdict of a function that is itself behind the gate is fine
+				if call, isCall := ev.(*ssa.Call); isCall && through[call.Call.StaticCallee()] {
+					continue
+				}
+				if ex, isEx := ev.(*ssa.Extract); isEx {
+					if call, isCall := ex.Tuple.(*ssa.Call); isCall && through[call.Call.StaticCallee()] {
+						continue
+					}
+				}
+				if isErrorExit(b) {
+					continue
+				}
+			}
+			thr := false
 			for _, gc := range gcalls {
 				if gc.Block().Dominates(b) {
-					through = true
+					thr = true
 				}
 			}
 			if entryFoundAt(b, 0) {
-				through = true // the key version already has a manifest entry
+				thr = true // the key version already has a manifest entry
 			}
 			// nothing to upload: the certificate handed in is nil
 			for _, cf := range dominatingConds(b) {
@@ -777,19 +782,60 @@ func c11UploadThroughGate(c *Ctx) {
 				if !isB || !isNilK(bo.Y) || (bo.Op == token.EQL) != cf.Val {
 					continue
 				}
-				if prm, isP := bo.X.(*ssa.Parameter); isP && namedIs(prm.Type(), "crypto/x509", "Certificate") {
-					through = true
+				if prm, isP := bo.X.(*ssa.Parameter); isP && typeMentions(prm, "crypto/x509", "Certificate") {
+					thr = true
 				}
 			}
-			if !through {
-				ok, at = false, ret.Pos()
+			if !thr {
+				v.ok, v.at = false, ret.Pos()
 			}
 		}
-		c.S.Check(ok, "R11", load.FuncName(f)+":success only through the upload gate", c.pos(at), "a nil error is returned only behind the gate call or for a key version that already has a manifest entry", "the upload can report success without having gone through the no-clobber gate and without the key version having a manifest entry: the caller records the key in the manifest although no certificate was stored for it")
+		return v, true
+	}
+	var cands []*ssa.Function
+	for _, f := range c.P.RepoFunctions() {
+		if load.RelPkg(f) != "sign/gcsca" || c.isTestFunc(f) || f.Blocks == nil || gates[f] {
+			continue
+		}
+		if f.Object() == nil || f.Object().Exported() {
+			continue // Finalize and the like decide what to upload; the rule is about the uploading helpers
+		}
+		// … that upload one certificate (a driver over the mutation's collection uploads nothing when it is empty)
+		oneCert := false
+		for _, p := range f.Params {
+			if pt, ok := p.Type().(*types.Pointer); ok && namedIs(pt.Elem(), "crypto/x509", "Certificate") {
+				oneCert = true
+			}
+		}
+		if !oneCert {
+			continue
+		}
+		cands = append(cands, f)
+	}
+	// bottom up: a function found to satisfy the rule counts as "behind the gate" for its callers
+	for round := 0; round < 4; round++ {
+		for _, f := range cands {
+			if through[f] {
+				continue
+			}
+			if v, applies := judge(f); applies && v.ok {
+				through[f] = true
+			}
+		}
+	}
+	for _, f := range cands {
+		v, applies := judge(f)
+		if !applies {
+			continue
+		}
+		n++
+		if through[f] {
+			v.ok = true
+		}
+		c.S.Check(v.ok, "R11", load.FuncName(f)+":success only through the upload gate", c.pos(v.at), "a nil error is returned only behind the gate call or for a key version that already has a manifest entry", "the upload can report success without having gone through the no-clobber gate and without the key version having a manifest entry: the caller records the key in the manifest although no certificate was stored for it")
 	}
 	c.S.Floor("R11", "upload functions around the no-clobber gate in sign/gcsca", 1, n)
 }
-
 
 // entryFoundAt: block b is reached only where a manifest entry was found for the key version: behind the non-nil edge
 // of a lookup returning a manifest entry, or behind the true edge of a flag that a helper of the package returns as true
